@@ -131,7 +131,7 @@ def catalogue_programs():
     """one small program per catalogue entry that has a theorem: the fault sits in the Failed
     branch of a Condition inside a counting loop of productionTask"""
     out = {}
-    for fid in ["F01a", "F01b", "F02a", "F03c", "F03d", "F04a", "F04b", "F04f", "F05a", "F16a", "F16b", "F16c",
+    for fid in ["F01a", "F01b", "F02a", "F03c", "F03d", "F04a", "F04b", "F04f", "F05a", "F06a", "F07a", "F16a", "F16b", "F16c",
                 "F16d", "F16e", "F20a", "F20b", "F20c", "F20d", "F13b"]:
         after, fidx, sub = faults.STMT_FAULTS[fid]
         inner = [Q] + gen_check.clone(after)
